@@ -18,6 +18,11 @@ says, nothing more:
   all its cells are independent again (text stays where it is: in the former origin);
 * row heights / column widths are plain integers; the frame size is their sum (for a table loaded from
   a file: from the first assignment of a width / height on, `sync_w` / `sync_h`);
+* the CALLER may resize the graphic frame (`X` / `Y` below): the columns / rows are not rescaled by that, so
+  from then on nothing is known about frame width (height) vs the sum (`sync_w` / `sync_h` False unless the
+  value assigned happens to be the sum) — until the next assignment of a column width (row height), after
+  which the frame width (height) is the sum again.  That is the statement's last clause and nothing more:
+  while out of sync the model demands nothing of the frame size;
 * `set_regions()` installs pre-existing merged regions (tables taken from PowerPoint-authored decks).
 
 Operations are tuples (JSON-able as lists):
@@ -27,6 +32,8 @@ Operations are tuples (JSON-able as lists):
                              (d=0: this.merge(foreign), d=1: foreign.merge(this))
     ("h", i, v)              rows[i].height = v
     ("w", j, v)              columns[j].width = v
+    ("X", v)                 graphic_frame.width = v   (the caller resizes the frame)
+    ("Y", v)                 graphic_frame.height = v
 """
 
 from __future__ import annotations
@@ -124,6 +131,8 @@ class TableRef:
             return "split-spanned" if self.is_spanned(i, j) else "split-unmerged"
         if k == "f":
             return "foreign"
+        if k in ("X", "Y"):
+            return "frame-resize"
         return "resize"
 
     # ---- transitions --------------------------------------------------------------------------
@@ -170,6 +179,14 @@ class TableRef:
             n.widths[op[1]] = op[2]
             n.sync_w = True
             return OK, n
+        if k == "X":
+            n = self.copy()
+            n.sync_w = op[1] == sum(n.widths)
+            return OK, n
+        if k == "Y":
+            n = self.copy()
+            n.sync_h = op[1] == sum(n.heights)
+            return OK, n
         raise ValueError("unknown op %r" % (op,))
 
 
@@ -186,4 +203,6 @@ def op_str(op):
         return "s%d%d" % (op[1], op[2])
     if k == "f":
         return "f%d%d%s" % (op[1], op[2], ">" if op[3] == 0 else "<")
+    if k in ("X", "Y"):
+        return "%s=%d" % (k, op[1])
     return "%s%d=%d" % (k, op[1], op[2])
